@@ -31,6 +31,7 @@ type c11Leaf struct {
 	Skipped  bool   // the leaf (or an enclosing level) is omitted from the config (unexported / dials:"-" / chan / func)
 	InnerTag bool   // some enclosing struct level carries a dials tag
 	Embedded bool   // reached through an embedded struct
+	OwnTag   bool   // the leaf itself carries a dials tag
 	Derived  string // the name the leaf would have without its dialsenv tag
 	FlatName string // concatenation of the non-embedded Go field names on the path
 	// CapsJoin: some enclosing level's dials tag ends in an upper-case letter
@@ -166,6 +167,7 @@ func c11Walk(fs []shape.Field, path, flat, words []string, depth int, fl c11Flag
 		case "leaf", "skip":
 			l := c11Leaf{Path: strings.Join(p, "."), Type: f.Type, Depth: depth, Skipped: skipped || f.Kind == "skip", InnerTag: innerTag, Embedded: embedded}
 			l.Name = upperSnake(w)
+			l.OwnTag = hasDials
 			l.Derived, l.FlatName, l.CapsJoin, l.UpperHostile = l.Name, strings.Join(fn, ""), fl.capsJoin, hostile
 			if ev, ok := st.Lookup("dialsenv"); ok && ev != "" {
 				l.Name, l.EnvTag = ev, true
